@@ -219,3 +219,110 @@ func MaxAges() []int { return []int{0, 1, -1, 86400, -2, 86401, math.MinInt, mat
 func Statuses() []int {
 	return []int{0, 200, 204, 299, 199, 300, 1, -1, math.MinInt, math.MaxInt, 1<<32 + 204, 256 + 204}
 }
+
+// ---- tables: every documented name in several spellings, near misses, and every byte value ----
+
+func spellings(s string) []string {
+	lo := strings.ToLower(s)
+	title := []byte(lo)
+	up := true
+	for i, c := range title {
+		if up && c >= 'a' && c <= 'z' {
+			title[i] = c - 32
+		}
+		up = c == '-'
+	}
+	alt := []byte(lo)
+	for i, c := range alt {
+		if i%2 == 1 && c >= 'a' && c <= 'z' {
+			alt[i] = c - 32
+		}
+	}
+	out := []string{lo}
+	for _, v := range []string{strings.ToUpper(lo), string(title), string(alt)} {
+		dup := false
+		for _, o := range out {
+			if o == v {
+				dup = true
+			}
+		}
+		if !dup {
+			out = append(out, v)
+		}
+	}
+	return out
+}
+
+func byteNames(prefix, suffix string) []NameAtom {
+	var out []NameAtom
+	for b := 0; b < 256; b++ {
+		a := NameAtom{Value: prefix + string([]byte{byte(b)}) + suffix}
+		if !isTchar(byte(b)) {
+			a.Reason = "invalid"
+		}
+		out = append(out, a)
+	}
+	return out
+}
+
+// MethodTable: the forbidden methods of the Fetch standard in every spelling, near misses of them, the
+// methods browsers know, and every byte value inside a method name (valid iff token character).
+func MethodTable() []NameAtom {
+	var out []NameAtom
+	for _, m := range []string{"connect", "trace", "track"} {
+		for _, s := range spellings(m) {
+			out = append(out, NameAtom{Value: s, Reason: "forbidden"})
+		}
+	}
+	for _, m := range []string{"CONNECTS", "CONNEC", "TRAC", "TRACER", "XTRACK", "TRACKS", "TRACE-", "-TRACE", "C", "HEAD", "POST", "OPTIONS", "options", "PROPFIND", "M-SEARCH", "get", "Post"} {
+		out = append(out, NameAtom{Value: m})
+	}
+	return append(out, byteNames("A", "Z")...)
+}
+
+// RequestHeaderTable: every forbidden request-header name of the Fetch standard and every documented
+// prohibited name in every spelling, the two forbidden prefixes, near misses, and every byte value.
+func RequestHeaderTable() []NameAtom {
+	var out []NameAtom
+	for _, n := range []string{"accept-charset", "accept-encoding", "access-control-request-headers", "access-control-request-method", "connection", "content-length", "cookie", "cookie2", "date", "dnt", "expect", "host", "keep-alive", "origin", "referer", "set-cookie", "te", "trailer", "transfer-encoding", "upgrade", "via",
+		"proxy-", "proxy-authorization", "proxy-x", "sec-", "sec-fetch-site", "sec-x"} {
+		for _, s := range spellings(n) {
+			out = append(out, NameAtom{Value: s, Reason: "forbidden"})
+		}
+	}
+	for _, n := range []string{"access-control-allow-credentials", "access-control-allow-headers", "access-control-allow-methods", "access-control-allow-origin", "access-control-allow-private-network", "access-control-expose-headers", "access-control-max-age"} {
+		for _, s := range spellings(n) {
+			out = append(out, NameAtom{Value: s, Reason: "prohibited"})
+		}
+	}
+	for _, n := range []string{"proxy", "prox-y", "xproxy-a", "sec", "secx-a", "xsec-a", "cookie3", "cooki", "dn", "dnt2", "hosts", "hos", "vias", "vi", "t", "tee", "dates", "expects", "origins", "referrer", "trailers", "upgrades", "accept", "accept-language", "content-language",
+		"access-control-allow", "access-control-allow-origins", "access-control-request", "x-access-control-allow-origin", "if-match", "range", "x-http-method-override-2"} {
+		out = append(out, NameAtom{Value: n}, NameAtom{Value: strings.ToUpper(n)})
+	}
+	return append(out, byteNames("x-", "-y")...)
+}
+
+// ResponseHeaderTable: the forbidden response-header names, the documented prohibited names, the
+// CORS-safelisted response-header names (tolerated), near misses, and every byte value.
+func ResponseHeaderTable() []NameAtom {
+	var out []NameAtom
+	for _, n := range []string{"set-cookie", "set-cookie2"} {
+		for _, s := range spellings(n) {
+			out = append(out, NameAtom{Value: s, Reason: "forbidden"})
+		}
+	}
+	for _, n := range []string{"access-control-request-headers", "access-control-request-method", "access-control-request-private-network", "origin"} {
+		for _, s := range spellings(n) {
+			out = append(out, NameAtom{Value: s, Reason: "prohibited"})
+		}
+	}
+	for _, n := range []string{"cache-control", "content-language", "content-length", "content-type", "expires", "last-modified", "pragma"} {
+		for _, s := range spellings(n) {
+			out = append(out, NameAtom{Value: s})
+		}
+	}
+	for _, n := range []string{"set-cookie3", "set-cooki", "xset-cookie", "cookie", "origins", "x-origin", "access-control-request", "etag", "link", "location", "vary", "www-authenticate", "x-request-id"} {
+		out = append(out, NameAtom{Value: n}, NameAtom{Value: strings.ToUpper(n)})
+	}
+	return append(out, byteNames("x-", "-y")...)
+}
